@@ -95,7 +95,7 @@ const (
 	OpWaitTimers  = 6 // harness only: wait for armed gap timers (replaced by the observed OpTimer*)
 	OpFailCommon  = 7 // executed form: a getDifference whose RPC failed (transient error)
 	OpFailChan    = 8 // executed form: a channel getDifference whose RPC failed (Seq)
-	OpAffected    = 9 // Manager.HandleAffected for log entry Items[0] (our own action): not modelled
+	OpAffected    = 9 // Manager.HandleAffected for log entry Items[0] (our own action)
 )
 
 type Op struct {
@@ -1052,11 +1052,14 @@ func (r *Run) Exec(ops []Op) {
 				if e.Seq >= 2 {
 					ch = ChanID(e.Seq)
 				}
-				r.NoModel = true
 				r.Affected[e.ID] = true
 				if err := r.mgr.HandleAffected(r.ctx, ch, e.Pos, e.Cnt); err != nil || !r.Sync() {
 					fail("affected result never became quiescent", i)
 					return
+				}
+				r.Executed = append(r.Executed, o)
+				if r.apiCount() != n0 {
+					r.Interference = true
 				}
 			}
 		case OpWaitTimers:
